@@ -51,6 +51,8 @@ type c18Case struct {
 	entries     []c18Entry
 	adversarial int
 	honestK     int
+	keys        []int // authority key numbers of the current set (nil: 0..n-1)
+	former      []int // key numbers of former authorities that are not in the current set (generator only)
 }
 
 type c18Result struct {
@@ -80,18 +82,34 @@ func (c *c18Case) describe(tree *vTree) string {
 	return sb.String()
 }
 
-// c18Eval runs the commit against a fresh service and evaluates the oracle.
-func c18Eval(c *c18Case) (*c18Result, *vTree, error) {
-	tree := newVTree(c.parent)
-	bs := newVBlockState(tree, c.head, c.headRound, c.setID, tree.size()-1)
+// authorityKeys returns the key numbers of the current authority set.
+func (c *c18Case) authorityKeys() []int {
+	if c.keys != nil {
+		return c.keys
+	}
 	keys := make([]int, c.n)
 	for i := range keys {
 		keys[i] = i
 	}
-	env, err := vNewService(bs, keys, 0, c.setID)
+	return keys
+}
+
+// c18Eval runs the commit against a fresh service and evaluates the oracle.
+func c18Eval(c *c18Case) (*c18Result, *vTree, error) {
+	tree := newVTree(c.parent)
+	bs := newVBlockState(tree, c.head, c.headRound, c.setID, tree.size()-1)
+	env, err := vNewService(bs, c.authorityKeys(), 0, c.setID)
 	if err != nil {
 		return nil, tree, fmt.Errorf("NewService: %w", err)
 	}
+	return c18Run(env, tree, c), tree, nil
+}
+
+// c18Run evaluates the oracle for commit c against the current authority set
+// c.authorityKeys() / set id c.setID / finalised head c.head, hands the commit
+// to the service of env and records what happened.
+func c18Run(env *vEnv, tree *vTree, c *c18Case) *c18Result {
+	bs := env.bs
 	cm := &CommitMessage{Round: c.round, SetID: c.commitSet, Vote: c.target}
 	for _, e := range c.entries {
 		cm.Precommits = append(cm.Precommits, e.vote)
@@ -108,10 +126,14 @@ func c18Eval(c *c18Case) (*c18Result, *vTree, error) {
 		votes   map[Vote]bool
 		onChain bool
 	}
+	isAuthority := map[int]bool{}
+	for _, k := range c.authorityKeys() {
+		isAuthority[k] = true
+	}
 	per := map[ed25519.PublicKeyBytes]*tally{}
 	if c.commitSet == c.setID {
 		for _, e := range c.entries {
-			if e.key < 0 || e.key >= c.n {
+			if !isAuthority[e.key] {
 				continue // not a current authority
 			}
 			pub := vPub(e.key)
@@ -137,9 +159,10 @@ func c18Eval(c *c18Case) (*c18Result, *vTree, error) {
 		}
 	}
 
+	callsBefore := len(bs.finalCalls())
 	res.err = env.svc.handleCommitMessage(cm)
-	res.calls = bs.finalCalls()
-	return res, tree, nil
+	res.calls = bs.finalCalls()[callsBefore:]
+	return res
 }
 
 // c18Judge returns a non-empty string when the outcome violates the property.
@@ -192,7 +215,14 @@ func c18Gen(t *rapid.T) *c18Case {
 	if rapid.IntRange(0, 11).Draw(t, "wrongCommitSet") == 0 {
 		c.commitSet = c.setID + 1
 	}
+	c18GenCommit(t, tree, c)
+	return c
+}
 
+// c18GenCommit draws target and entries of one commit for the current
+// authority set c.authorityKeys(), finalised head c.head, commit round c.round
+// and set ids c.setID / c.commitSet (all filled in by the caller).
+func c18GenCommit(t *rapid.T, tree *vTree, c *c18Case) {
 	// target
 	var ti int
 	if rapid.IntRange(0, 6).Draw(t, "anyTarget") == 0 {
@@ -243,10 +273,7 @@ func c18Gen(t *rapid.T) *c18Case {
 		k = c.n
 	}
 	c.honestK = k
-	members := make([]int, c.n)
-	for i := range members {
-		members[i] = i
-	}
+	members := append([]int{}, c.authorityKeys()...)
 	members = rapid.Permutation(members).Draw(t, "members")
 	for _, m := range members[:k] {
 		c.entries = append(c.entries, good("ok", m, pick(subT, "okBlock")))
@@ -258,11 +285,14 @@ func c18Gen(t *rapid.T) *c18Case {
 			pool = pool[1:]
 			return m
 		}
-		return rapid.IntRange(0, c.n-1).Draw(t, "reuseMember")
+		return c.authorityKeys()[rapid.IntRange(0, c.n-1).Draw(t, "reuseMember")]
 	}
 
 	kinds := []string{"ancestor", "otherfork", "wrongRound", "wrongSet", "garbage", "sigOther", "dup", "equivOnOn", "equivOnOff",
 		"equivOffOff", "twiceBadSig", "offPlusBad", "nonAuth1", "nonAuth2", "nonAuth2", "unknownBlock", "wrongNumber", "equivUnknown"}
+	if len(c.former) > 0 {
+		kinds = append(kinds, "former", "former", "former", "formerMany", "formerMany", "formerTwice")
+	}
 	na := rapid.SampledFrom([]int{0, 0, 0, 1, 1, 1, 2, 2, 3, 4}).Draw(t, "nAdversarial")
 	garbage := func(label string) [64]byte {
 		var s [64]byte
@@ -341,6 +371,16 @@ func c18Gen(t *rapid.T) *c18Case {
 				v2 := tree.vote(pick(subT, "blk2"))
 				c.entries = append(c.entries, good(kind, m, pick(notOn, "blk")), c18Entry{kind, m, v2, garbage("sig")})
 			}
+		case "former": // a former authority, correctly signed for this round and set
+			c.entries = append(c.entries, good(kind, pick(c.former, "former"), pick(subT, "blk")))
+		case "formerMany": // every former authority (or a drawn number of them) precommits the target
+			cnt := rapid.IntRange(1, len(c.former)).Draw(t, "formerCount")
+			for _, key := range c.former[:cnt] {
+				c.entries = append(c.entries, good(kind, key, pick(subT, "blk")))
+			}
+		case "formerTwice": // a former authority with two different correctly signed votes
+			key := pick(c.former, "former")
+			c.entries = append(c.entries, good(kind, key, pick(subT, "blk")), good(kind, key, rapid.IntRange(0, tree.size()-1).Draw(t, "blk2")))
 		case "nonAuth1":
 			key := c18NonMemberBase + rapid.IntRange(0, 2).Draw(t, "outsider")
 			c.entries = append(c.entries, good(kind, key, pick(subT, "blk")))
@@ -375,7 +415,6 @@ func c18Gen(t *rapid.T) *c18Case {
 	if len(c.entries) > 1 {
 		c.entries = rapid.Permutation(c.entries).Draw(t, "order")
 	}
-	return c
 }
 
 func TestC18Commit(t *testing.T) {
@@ -495,4 +534,237 @@ func TestC18Regressions(t *testing.T) {
 		}
 		t.Logf("%s: |S|=%d of %d, finalised=%v err=%v", name, r.s, c.n, len(r.calls) > 0, r.err)
 	}
+}
+
+// ---------------------------------------------------------------------------
+// commits on ONE service across an authority set change
+
+const c18SetChangeRule = "history on ONE Service: 1-3 generated commits (all kinds of TestC18Commit) under set N with 1-7 authorities, then an authority set change to a generated set N+1 " +
+	"(overlapping / disjoint / larger / smaller / same / one rotated) published by the grandpa state and applied by Service.initiateRound -> updateAuthorities as the round loop does, then 1-3 generated commits for set N+1 " +
+	"whose entries additionally mix in former authorities correctly signed for the new round and set id (once, many, twice), plus one honest full commit of the new set at a drawn position; " +
+	"oracle of TestC18Commit evaluated against the set that is current at the time of each commit, and the honest full commit of the new set must be accepted; " +
+	"non-trivial = membership changed and a post-change commit carries former-authority entries or has |S| within 1 of need; distinct by (sets, tree, commit list)"
+
+const c18NewKeyBase = 20 // key numbers of authorities that only exist in the new set
+
+// c18GenNewSet draws the membership of set N+1 from the membership of set N.
+func c18GenNewSet(t *rapid.T, keysA []int) (mode string, keysB []int) {
+	mode = rapid.SampledFrom([]string{"overlap", "overlap", "disjoint", "disjoint", "larger", "smaller", "rotateOne", "same"}).Draw(t, "setChange")
+	perm := rapid.Permutation(append([]int{}, keysA...)).Draw(t, "oldOrder")
+	fresh := func(cnt int) []int {
+		out := make([]int, cnt)
+		for i := range out {
+			out[i] = c18NewKeyBase + i
+		}
+		return out
+	}
+	switch mode {
+	case "overlap":
+		keep := rapid.IntRange(1, len(perm)).Draw(t, "keep")
+		keysB = append(append([]int{}, perm[:keep]...), fresh(rapid.IntRange(1, 3).Draw(t, "added"))...)
+	case "disjoint":
+		keysB = fresh(rapid.IntRange(1, 7).Draw(t, "newSize"))
+	case "larger":
+		keysB = append(append([]int{}, perm...), fresh(rapid.IntRange(1, 4).Draw(t, "added"))...)
+	case "smaller":
+		if len(perm) < 2 {
+			mode, keysB = "same", perm
+		} else {
+			keysB = append([]int{}, perm[:rapid.IntRange(1, len(perm)-1).Draw(t, "keep")]...)
+		}
+	case "rotateOne":
+		keysB = append(append([]int{}, perm[1:]...), c18NewKeyBase)
+	default:
+		keysB = perm
+	}
+	if len(keysB) > 1 {
+		keysB = rapid.Permutation(keysB).Draw(t, "newOrder")
+	}
+	return mode, keysB
+}
+
+func c18Minus(a, b []int) []int {
+	in := map[int]bool{}
+	for _, x := range b {
+		in[x] = true
+	}
+	var out []int
+	for _, x := range a {
+		if !in[x] {
+			out = append(out, x)
+		}
+	}
+	return out
+}
+
+// c18HonestFull builds a commit in which every authority of keys precommits
+// the target (a block at or below the finalised head's subtree) or a descendant.
+func c18HonestFull(t *rapid.T, tree *vTree, c *c18Case) {
+	sub := tree.subtree(c.head)
+	ti := sub[rapid.IntRange(0, len(sub)-1).Draw(t, "fullTarget")]
+	c.target = tree.vote(ti)
+	subT := tree.subtree(ti)
+	for _, key := range c.authorityKeys() {
+		v := tree.vote(subT[rapid.IntRange(0, len(subT)-1).Draw(t, "fullBlk")])
+		c.entries = append(c.entries, c18Entry{"ok", key, v, vSignVote(key, precommit, v, c.round, c.commitSet)})
+	}
+	c.honestK = c.n
+	if len(c.entries) > 1 {
+		c.entries = rapid.Permutation(c.entries).Draw(t, "order")
+	}
+}
+
+func TestC18CommitAcrossSetChange(t *testing.T) {
+	defer kit.Flush()
+	kit.Note("rule-setchange", c18SetChangeRule)
+	rapid.Check(t, func(t *rapid.T) {
+		nA := rapid.SampledFrom([]int{1, 2, 3, 3, 4, 4, 5, 6, 7}).Draw(t, "nOld")
+		keysA := make([]int, nA)
+		for i := range keysA {
+			keysA[i] = i
+		}
+		mode, keysB := c18GenNewSet(t, keysA)
+		tree := vGenTree(t, 3, 12)
+		head, headRound := 0, uint64(0)
+		if rapid.IntRange(0, 3).Draw(t, "headNotGenesis") == 0 {
+			head, headRound = rapid.IntRange(0, tree.size()/2).Draw(t, "head"), 1
+		}
+		setN := rapid.SampledFrom([]uint64{0, 0, 2}).Draw(t, "setID")
+		bs := newVBlockState(tree, head, headRound, setN, tree.size()-1)
+		env, err := vNewService(bs, keysA, 0, setN)
+		if err != nil {
+			t.Fatalf("harness: %v", err)
+		}
+		if err := env.svc.initiateRound(); err != nil {
+			t.Fatalf("harness: initiateRound: %v", err)
+		}
+		var descr strings.Builder
+		fmt.Fprintf(&descr, "change=%s old=%v new=%v tree=%s;", mode, keysA, keysB, tree.describe())
+		labels := []string{"change:" + mode, fmt.Sprintf("nOld=%d", nA), fmt.Sprintf("nNew=%d", len(keysB))}
+		nontrivial := false
+
+		// one commit against the current set; full = honest full commit that must be accepted
+		step := func(phase string, keys, former []int, setID, round uint64, full bool) {
+			c := &c18Case{n: len(keys), keys: keys, former: former, parent: tree.parent, setID: setID, commitSet: setID, round: round}
+			bs.mu.Lock()
+			c.head, c.headRound = bs.finalHead, bs.highRound
+			bs.mu.Unlock()
+			if full {
+				c18HonestFull(t, tree, c)
+			} else {
+				switch rapid.IntRange(0, 11).Draw(t, "commitSetOff") {
+				case 0:
+					c.commitSet = setID + 1
+				case 1:
+					if setID > 0 {
+						c.commitSet = setID - 1 // a commit still carrying the previous set id
+					}
+				}
+				c18GenCommit(t, tree, c)
+			}
+			r := c18Run(env, tree, c)
+			fmt.Fprintf(&descr, " [%s%s] %s;", phase, map[bool]string{true: " honest-full", false: ""}[full], c.describe(tree))
+			if msg := c18Judge(c, r); msg != "" {
+				t.Fatalf("%s commit: %s\nhistory: %s\nerr=%v calls=%v", phase, msg, descr.String(), r.err, r.calls)
+			}
+			accepted := len(r.calls) > 0
+			if full && !accepted {
+				t.Fatalf("%s: honest commit signed by every one of the %d current authorities (set id %d) for a descendant of the finalised head in a fresh round was rejected: %v\nhistory: %s",
+					phase, c.n, setID, r.err, descr.String())
+			}
+			if accepted {
+				labels = append(labels, phase+":accepted")
+			} else {
+				labels = append(labels, phase+":rejected")
+			}
+			if full {
+				labels = append(labels, phase+":honest-full-accepted")
+				return
+			}
+			d := r.s - c18Need(c.n)
+			hasFormer := false
+			for _, e := range c.entries {
+				if strings.HasPrefix(e.kind, "former") {
+					hasFormer = true
+				}
+			}
+			if hasFormer {
+				labels = append(labels, phase+":former-authority-entries")
+			}
+			if phase == "after" && mode != "same" && (hasFormer || (d >= -1 && d <= 1)) {
+				nontrivial = true
+			}
+		}
+
+		round := headRound + 1
+		for i, m := 0, rapid.IntRange(1, 3).Draw(t, "commitsBefore"); i < m; i++ {
+			step("before", keysA, nil, setN, round, false)
+			if rapid.IntRange(0, 7).Draw(t, "sameRoundAgain") > 0 {
+				round++
+			}
+		}
+
+		// the set change N -> N+1 becomes visible in the grandpa state; the round
+		// loop applies it at the start of the next round (initiateRound -> updateAuthorities)
+		env.gs.changeSet(setN+1, vVoters(keysB))
+		if err := env.svc.initiateRound(); err != nil {
+			t.Fatalf("harness: initiateRound after the set change: %v", err)
+		}
+		former := c18Minus(keysA, keysB)
+		round = 1
+		m := rapid.IntRange(1, 3).Draw(t, "commitsAfter")
+		fullAt := rapid.IntRange(0, m).Draw(t, "honestFullAt")
+		for i := 0; i <= m; i++ {
+			if i == fullAt {
+				step("after", keysB, former, setN+1, round, true)
+				round++
+			}
+			if i == m {
+				break
+			}
+			step("after", keysB, former, setN+1, round, false)
+			if rapid.IntRange(0, 7).Draw(t, "sameRoundAgain") > 0 {
+				round++
+			}
+		}
+		kit.Case(descr.String(), nontrivial, labels...)
+	})
+}
+
+// TestC18SetChangeRegressions: deterministic history for membership that must
+// follow the authority set change.
+func TestC18SetChangeRegressions(t *testing.T) {
+	defer kit.Flush()
+	parent := []int{-1, 0, 1, 2}
+	tree := newVTree(parent)
+	keysA, keysB := []int{0, 1, 2}, []int{20, 21, 22}
+	bs := newVBlockState(tree, 0, 0, 0, 3)
+	env, err := vNewService(bs, keysA, 0, 0)
+	if err != nil {
+		t.Fatalf("harness: %v", err)
+	}
+	if err := env.svc.initiateRound(); err != nil {
+		t.Fatalf("harness: %v", err)
+	}
+	commit := func(name string, keys, signers []int, setID, round uint64, target int, mustAccept bool) {
+		c := &c18Case{n: len(keys), keys: keys, parent: parent, setID: setID, commitSet: setID, round: round, target: tree.vote(target), head: bs.finalHead}
+		for _, k := range signers {
+			c.entries = append(c.entries, c18Entry{"ok", k, c.target, vSignVote(k, precommit, c.target, round, setID)})
+		}
+		r := c18Run(env, tree, c)
+		if msg := c18Judge(c, r); msg != "" {
+			t.Errorf("%s: %s (err=%v)", name, msg, r.err)
+		}
+		if mustAccept && len(r.calls) == 0 {
+			t.Errorf("%s: honest full commit of the current authority set was rejected: %v", name, r.err)
+		}
+		t.Logf("%s: |S|=%d of %d finalised=%v err=%v", name, r.s, c.n, len(r.calls) > 0, r.err)
+	}
+	commit("old set, full commit for b1", keysA, keysA, 0, 1, 1, true)
+	env.gs.changeSet(1, vVoters(keysB))
+	if err := env.svc.initiateRound(); err != nil {
+		t.Fatalf("harness: %v", err)
+	}
+	commit("new set current, commit signed by the three former authorities for b2", keysB, keysA, 1, 1, 2, false)
+	commit("new set current, full commit of the new authorities for b2", keysB, keysB, 1, 2, 2, true)
 }
